@@ -2,7 +2,8 @@
 Line-protocol driver for the `attr` cluster (C02: kind `a2`, C10: kind `a10`).
 
   a2|<trait>|<pool>|<handlers>|op;op;…      →   res ; res ; …
-  a10|<pool>|<classes>|<handlers>|op;op;…   →   res ; res ; …
+  a10|<pool>|<classes>|<handlers>|op;op;…   →   res ; res ; …   (header P=<i.j>: call ordinals at which the
+      `post_setattr` hook of `pa<k>` members raises RuntimeError)
 
 Run:  lake env lean --run TraitsVerif/Driver/Attr.lean
 The formats are documented in harness/props/c02.py and harness/props/c10.py.
@@ -260,6 +261,10 @@ def parseMember (shared : List (Nat × String)) (code0 : String) (c : Ctx) : Opt
   else if two == "fa" then
     (rest2.toNat?).map fun k =>
       (some (.trait { dvt := Generated.CALLABLE_AND_ARGS_DEFAULT_VALUE, dv := some (factoryBase + k) }), c)
+  else if two == "pa" then
+    -- Any(factory=F[k]) with a `post_setattr` hook (post number 0: raises at the call ordinals of the header's P=)
+    (rest2.toNat?).map fun k =>
+      (some (.trait { dvt := Generated.CALLABLE_AND_ARGS_DEFAULT_VALUE, dv := some (factoryBase + k), post := some 0 }), c)
   else if two == "vl" || two == "vd" then
     let (i, c') := c.newContainer (parseDots rest2)
     some (some (.value i), c')
@@ -427,7 +432,7 @@ def handleC10 (pf ff cf hf opsf : String) : String :=
   let E : Env :=
     { cmp := { eqv := fun a b => if a == b then .yes else .no, neq := fun a b => if a == b then .no else .yes }
       validate := validate
-      post := fun _ _ _ => .ok ()
+      post := fun _ ord _ => if (parseDots (look P "P")).contains ord then .error .runtimeError else .ok ()
       factory := mkFactory ftab
       handler := mkHandlers (look (kvs hf) "H")
       veto := fun _ => false
